@@ -516,6 +516,9 @@ def _root_of_place(n):
     return n if n is not None and n.get("k") == "local" else None
 
 
+_LEN_PRESERVING = ("swap", "sort", "sort_by", "sort_unstable", "reverse", "fill", "iter_mut", "get_mut", "last_mut", "first_mut", "as_mut_slice", "rotate_left", "rotate_right")
+
+
 def _mutations(body, types):
     """{hid: kinds} of the locals assigned / mutably borrowed under body; kind 'elem' = assignment to a numeric element through an index"""
     out = {}
@@ -536,7 +539,8 @@ def _mutations(body, types):
             if ty(rv, "ta").startswith("&mut") or (ty(rv, "ta") == "" and ty(rv).startswith("&mut")):
                 r = _root_of_place(rv)
                 if r is not None:
-                    out.setdefault(r["hid"], set()).add("whole")
+                    # slice methods that permute / overwrite elements in place never change a length
+                    out.setdefault(r["hid"], set()).add("elem" if x.get("name") in _LEN_PRESERVING else "whole")
         elif k == "ref" and x.get("mut"):
             r = _root_of_place(x["x"])
             if r is not None:
@@ -647,6 +651,57 @@ def _countdown(blkn, stmts, items, b, lp, iff, iv, types):
     return True
 
 
+def _fillup(blkn, stmts, items, b, lp, iff, vec, end, types):
+    vh = vec["hid"]
+    th = iff["th"]
+    thb = th["b"] if th.get("k") == "blk" else None
+    if thb is None:
+        return False
+    body_items = list(thb["stmts"]) + ([thb["tail"]] if thb.get("tail") is not None else [])
+    if not body_items:
+        return False
+    last = _unblk(body_items[-1])
+    if not (last is not None and last.get("k") == "mcall" and last.get("name") == "push" and len(last["args"]) == 1 and _unblk(last["recv"]) is not None
+            and _unblk(last["recv"]).get("k") == "local" and _unblk(last["recv"])["hid"] == vh):
+        return False
+    if any(_mentions(x, vh) for x in body_items[:-1]) or _mentions(last["args"][0], vh):
+        return False
+    lid = lp.get("loop_id")
+    if any(y.get("k") in ("break", "continue") and y.get("label") in (lid, None) for x in body_items for y in _walk(x)) or any(y.get("k") == "ret" for x in body_items for y in _walk(x)):
+        return False
+    if not _pure_bound(end) or _mentions(end, vh):
+        return False
+    muts = _mutations(body_items, types)
+    if any(y.get("k") == "local" and y["hid"] in muts for y in _walk(end)):
+        return False
+    # the vector is declared empty earlier in this block and untouched in between
+    a = None
+    for j in range(b - 1, -1, -1):
+        s = items[j]
+        if s.get("k") == "let" and s["pat"].get("k") == "bind" and s["pat"]["hid"] == vh:
+            init = _unblk(s.get("init"))
+            if init is not None and init.get("k") == "call" and "Vec" in str(init.get("callee")) and str(init.get("callee")).rsplit("::", 1)[-1] in ("new", "with_capacity"):
+                a = j
+            break
+        if _mentions(s, vh):
+            return False
+    if a is None:
+        return False
+    usize_t = types.index("usize") if "usize" in types else None
+    line = lp.get("line")
+    newlp = {"k": "for", "pat": {"k": "wild"}, "loop_id": lid, "line": line, "from_while": "fillup",
+             "body": {"k": "blk", "b": {"k": "block", "stmts": body_items, "tail": None}, "line": th.get("line")},
+             "iter": {"k": "struct", "path": "std::ops::Range", "mac": "Desugaring(RangeExpr)", "line": line, "fs": [["start", {"k": "lit", "v": "0", "t": usize_t}], ["end", end]]}}
+    if "id" in lp:
+        newlp["id"] = lp["id"]
+    if b < len(stmts):
+        stmts[b] = newlp
+    else:
+        blkn["tail"] = None
+        stmts.append(newlp)
+    return True
+
+
 def while_to_for(fn, types):
     """D8  `let mut i = A; while i < B { body; i += 1; }`  ->  `for i in A..B { body }`
     when the body neither assigns i elsewhere nor `continue`s the loop, B is side-effect free and not changed by the body
@@ -678,6 +733,14 @@ def while_to_for(fn, types):
                 elif c["op"] == "Gt":
                     iv, end = _unblk(c["r"]), c["l"]
                 else:
+                    continue
+                if (iv is not None and iv.get("k") == "mcall" and iv.get("name") == "len" and not iv["args"] and _unblk(iv["recv"]) is not None
+                        and _unblk(iv["recv"]).get("k") == "local"):
+                    # fill-up:  `let mut v = Vec::new(); while v.len() < N { body; v.push(e); }`  ->  `for _ in 0..N { body; v.push(e); }`
+                    if _fillup(blkn, stmts, items, b, lp, iff, _unblk(iv["recv"]), end, types):
+                        n += 1
+                        changed = True
+                        break
                     continue
                 zero = _unblk(c["r"]) if c["op"] == "Gt" else _unblk(c["l"])
                 down = _unblk(c["l"]) if c["op"] == "Gt" else _unblk(c["r"])
@@ -861,6 +924,14 @@ def move_aliases(fn):
     """D11  `let a = b;` where b is a local that is never mentioned again (a move / rename) -> a is b.
     Only within one statement list; the binding of b must be a plain `let` / parameter (hid-identified)."""
     n = 0
+    params = set()
+    for p_ in fn.get("params") or []:
+        for q in _walk(p_):
+            if q.get("k") == "bind":
+                params.add(q["hid"])
+    top = fn.get("body")
+    while isinstance(top, dict) and top.get("k") == "blk":
+        top = top["b"]
     for b in list(_walk(fn.get("body"))):
         if b.get("k") != "block":
             continue
@@ -872,7 +943,7 @@ def move_aliases(fn):
                     and "Ref" not in str(s["pat"].get("mode")) and s.get("from_alias") is None):
                 src = init["hid"]
                 later = b["stmts"][i + 1:] + ([b["tail"]] if b.get("tail") is not None else [])
-                if not any(_mentions(x, src) for x in later) and src != s["pat"]["hid"] and _declared_in(b["stmts"][:i], src):
+                if not any(_mentions(x, src) for x in later) and src != s["pat"]["hid"] and (_declared_in(b["stmts"][:i], src) or (b is top and src in params)):
                     dst = s["pat"]["hid"]
                     for x in later:
                         for y in _walk(x):
@@ -896,22 +967,423 @@ def _declared_in(stmts, hid):
     return False
 
 
+def inline_consts(facts):
+    """D0  a path naming a constant item of the crate is replaced by the item's defining expression (constants are compile-time
+    expressions without side effects; `const A: u64 = 48271; .. A ..` and `.. 48271 ..` are the same program)."""
+    consts = facts.get("consts") or {}
+    if not consts:
+        return 0
+    n = 0
+
+    def clean(x):
+        if isinstance(x, dict):
+            return {k: clean(v) for k, v in x.items() if k != "id"}
+        if isinstance(x, list):
+            return [clean(v) for v in x]
+        return x
+
+    def rewrite(x, depth=0):
+        nonlocal n
+        if isinstance(x, list):
+            return [rewrite(v, depth) for v in x]
+        if not isinstance(x, dict):
+            return x
+        if x.get("k") == "path" and x.get("def") in consts and depth < 8:
+            n += 1
+            body = clean(copy.deepcopy(consts[x["def"]]["body"]))
+            body = rewrite(body, depth + 1)
+            if isinstance(body, dict) and "line" in x:
+                body["line"] = x["line"]
+            return body
+        for k_, v in list(x.items()):
+            if isinstance(v, (dict, list)):
+                x[k_] = rewrite(v, depth)
+        return x
+    for fn in facts["fns"].values():
+        if fn.get("body") is not None:
+            fn["body"] = rewrite(fn["body"])
+    return n
+
+
+def tail_returns(fn):
+    """D13  `return e` in tail position of the function body (also at the end of the branches of a tail `if` / `match`) is the value `e`."""
+    n = 0
+
+    def tailpos(x):
+        """rewrite node x that sits in tail position; returns the replacement"""
+        nonlocal n
+        if not isinstance(x, dict):
+            return x
+        k = x.get("k")
+        if k == "ret" and x.get("v") is not None:
+            n += 1
+            return tailpos(x["v"])
+        if k == "blk" and x.get("lbl") is None and isinstance(x.get("b"), dict):
+            b = x["b"]
+            if b.get("tail") is not None:
+                b["tail"] = tailpos(b["tail"])
+            elif b["stmts"] and isinstance(b["stmts"][-1], dict) and b["stmts"][-1].get("k") == "ret" and b["stmts"][-1].get("v") is not None:
+                b["tail"] = tailpos(b["stmts"].pop())
+            return x
+        if k == "if" and x.get("el") is not None:
+            x["th"] = tailpos(x["th"])
+            x["el"] = tailpos(x["el"])
+            return x
+        if k == "match":
+            for a in x["arms"]:
+                a["body"] = tailpos(a["body"])
+            return x
+        return x
+    if fn.get("body") is not None:
+        fn["body"] = tailpos(fn["body"])
+    return n
+
+
+def lift_arg_blocks(fn, types):
+    """D14  a block with statements used as an argument (or receiver) of a call is lifted around the call:
+        f(a, { s1; s2; t })   ->   { s1; s2; f(a, t) }
+    when the other operands are literals or places rooted in locals that s1; s2 do not change (so the order in which the operands
+    and the statements are evaluated cannot matter).  Together with D10 this makes an inlined helper used as an argument read like
+    straight-line code."""
+    n = 0
+
+    def simple(a, muts):
+        a0 = _unblk(a)
+        if a0 is None:
+            return False
+        if a0.get("k") in ("lit", "path"):
+            return True
+        if a0.get("k") == "closure":
+            return True
+        if _pure_bound(a0):
+            return not any(x.get("k") == "local" and x["hid"] in muts for x in _walk(a0))
+        return False
+
+    def rewrite(x):
+        nonlocal n
+        if isinstance(x, list):
+            return [rewrite(v) for v in x]
+        if not isinstance(x, dict):
+            return x
+        for k_, v in list(x.items()):
+            if isinstance(v, (dict, list)):
+                x[k_] = rewrite(v)
+        if x.get("k") not in ("call", "mcall") or x.get("mac"):
+            return x
+        ops = ([("recv", None)] if x["k"] == "mcall" else []) + [("args", i) for i in range(len(x["args"]))]
+        cand = []
+        for (key, i) in ops:
+            a = x[key] if i is None else x[key][i]
+            if isinstance(a, dict) and a.get("k") == "blk" and a.get("lbl") is None and not a.get("unsafe") and a["b"].get("k") == "block" and a["b"]["stmts"] and a["b"].get("tail") is not None:
+                cand.append((key, i, a))
+        if len(cand) != 1:
+            return x
+        key, i, a = cand[0]
+        muts = _mutations(a["b"]["stmts"], types)
+        for (k2, j) in ops:
+            if (k2, j) == (key, i):
+                continue
+            o = x[k2] if j is None else x[k2][j]
+            if not simple(o, muts):
+                return x
+        if i is None:
+            x[key] = a["b"]["tail"]
+        else:
+            x[key][i] = a["b"]["tail"]
+        out = {"k": "blk", "b": {"k": "block", "stmts": a["b"]["stmts"], "tail": x}, "line": x.get("line"), "lifted": True}
+        for tk in ("t", "ta"):
+            if tk in x:
+                out[tk] = x[tk]
+        n += 1
+        return out
+    if fn.get("body") is not None:
+        fn["body"] = rewrite(fn["body"])
+    return n
+
+
+def compound_assignments(fn):
+    """D15  `x = x + e` -> `x += e`   (also `x = e + x`, `x = x * e`, `x = e * x`, `x = x - e`, `x = x / e`) for a place x whose
+    evaluation has no side effects: the compound operators on the primitive number types are defined as exactly this."""
+    n = 0
+    for x in _walk(fn.get("body")):
+        if x.get("k") != "assign":
+            continue
+        l, r = _unblk(x["l"]), _unblk(x["r"])
+        if l is None or r is None or r.get("k") != "bin" or r["op"] not in ("Add", "Sub", "Mul", "Div") or not _pure_place_idx(l):
+            continue
+        a, b = _unblk(r["l"]), _unblk(r["r"])
+        same = lambda u: u is not None and _same_place(u, l)
+        if same(a):
+            other = r["r"]
+        elif same(b) and r["op"] in ("Add", "Mul"):
+            other = r["l"]
+        else:
+            continue
+        if _mentions_place(other, l) and False:
+            continue
+        x["k"] = "assignop"
+        x["op"] = r["op"] + "Assign"
+        x["r"] = other
+        x["from_assign"] = True
+        n += 1
+    return n
+
+
+def _same_place(a, b):
+    a, b = _unblk(a), _unblk(b)
+    if a is None or b is None or a.get("k") != b.get("k"):
+        return False
+    k = a["k"]
+    if k == "local":
+        return a["hid"] == b["hid"]
+    if k == "field":
+        return a["f"] == b["f"] and _same_place(a["b"], b["b"])
+    if k == "index":
+        return _same_place(a["b"], b["b"]) and _same_place(a["i"], b["i"])
+    if k == "lit":
+        return a.get("v") == b.get("v")
+    if k == "un":
+        return a.get("op") == b.get("op") and _same_place(a["x"], b["x"])
+    if k == "ref":
+        return _same_place(a["x"], b["x"])
+    return False
+
+
+def _mentions_place(n, place):
+    return False
+
+
+def push_nests_to_index(fn, types):
+    """D16 (loop-nest extractor only)  a vector built by one `push` at the end of every iteration of an index loop is read in its
+    indexed form:
+        let mut v = Vec::new(); for i in 0..n { ..; v.push(e); }         ->   let mut v = vec![<zero>; n]; for i in 0..n { ..; v[i] = e; }
+    and when e is itself a local built that way inside the iteration, that local *is* the cell v[i]:
+        .. { let mut r = Vec::new(); for j in 0..m { ..; r.push(x) }; v.push(r) }   ->   let mut v = vec![vec![<zero>; m]; n]; .. { for j in 0..m { ..; v[i][j] = x } }
+    Conditions: the loop runs over `0..n` and neither breaks nor continues; v is mentioned nowhere else inside the loop nor between its
+    declaration and the loop; the inner extents do not depend on anything bound inside the outer loop."""
+    n = 0
+    allocs = {}          # hid -> [extent nodes]
+
+    def is_empty_vec(e):
+        e = _unblk(e)
+        return e is not None and e.get("k") == "call" and "Vec" in str(e.get("callee")) and str(e.get("callee")).rsplit("::", 1)[-1] in ("new", "with_capacity")
+
+    def binds_under(x):
+        out = set()
+        for y in _walk(x):
+            if y.get("k") == "bind":
+                out.add(y["hid"])
+        return out
+
+    def subst_local(x, hid, repl):
+        if isinstance(x, list):
+            return [subst_local(v, hid, repl) for v in x]
+        if not isinstance(x, dict):
+            return x
+        if x.get("k") == "local" and x.get("hid") == hid:
+            r = copy.deepcopy(repl)
+            return r
+        for k_, v in list(x.items()):
+            if isinstance(v, (dict, list)):
+                x[k_] = subst_local(v, hid, repl)
+        return x
+
+    def do_block(b):
+        nonlocal n
+        # innermost first
+        for s in b["stmts"]:
+            for y in _walk(s):
+                if y is not b and y.get("k") == "block":
+                    pass
+        i = 0
+        while i < len(b["stmts"]):
+            s = b["stmts"][i]
+            if not (s.get("k") == "let" and s["pat"].get("k") == "bind" and is_empty_vec(s.get("init"))):
+                i += 1
+                continue
+            vh = s["pat"]["hid"]
+            # the loop that fills it
+            done = False
+            for j in range(i + 1, len(b["stmts"])):
+                lp = b["stmts"][j]
+                if lp.get("k") != "for" or not _mentions(lp, vh):
+                    if _mentions(lp, vh):
+                        break
+                    continue
+                it = _unblk(lp["iter"])
+                if not (it is not None and it.get("k") == "struct" and it.get("path") == "std::ops::Range"):
+                    break
+                fs = dict((a_, b_) for a_, b_ in it["fs"])
+                st0 = _unblk(fs["start"])
+                if not (st0.get("k") == "lit" and str(st0.get("v")).replace("usize", "").rstrip("_") == "0") or lp["pat"].get("k") != "bind":
+                    break
+                body = lp["body"]["b"] if lp["body"].get("k") == "blk" else None
+                if body is None or body.get("tail") is not None and False:
+                    break
+                items = list(body["stmts"]) + ([body["tail"]] if body.get("tail") is not None else [])
+                if not items:
+                    break
+                last = _unblk(items[-1])
+                if not (last is not None and last.get("k") == "mcall" and last.get("name") == "push" and len(last["args"]) == 1
+                        and _unblk(last["recv"]).get("k") == "local" and _unblk(last["recv"])["hid"] == vh):
+                    break
+                if any(_mentions(x_, vh) for x_ in items[:-1]) or _mentions(last["args"][0], vh):
+                    break
+                lid = lp.get("loop_id")
+                if any(y.get("k") in ("break", "continue") and y.get("label") in (lid, None) for x_ in items for y in _walk(x_)) or any(y.get("k") == "ret" for x_ in items for y in _walk(x_)):
+                    break
+                end = fs["end"]
+                ivar = {"k": "local", "name": lp["pat"]["name"], "hid": lp["pat"]["hid"], "t": lp["pat"].get("t"), "line": lp.get("line")}
+                vloc = {"k": "local", "name": s["pat"]["name"], "hid": vh, "t": s["pat"].get("t"), "line": lp.get("line")}
+                arg = _unblk(last["args"][0])
+                cell = {"k": "index", "b": vloc, "i": ivar, "t": arg.get("t"), "line": last.get("line")}
+                inner_ext = None
+                if arg.get("k") == "local" and arg["hid"] in allocs:
+                    rdecl = [k_ for k_, x_ in enumerate(items[:-1]) if x_.get("k") == "let" and x_["pat"].get("k") == "bind" and x_["pat"]["hid"] == arg["hid"]]
+                    bound = binds_under(lp)
+                    if len(rdecl) == 1 and not any(y.get("k") == "local" and y["hid"] in bound for e_ in allocs[arg["hid"]] for y in _walk(e_)):
+                        inner_ext = allocs[arg["hid"]]
+                        k0 = rdecl[0]
+                        cell["t"] = items[k0]["pat"].get("t")
+                        new_items = [subst_local(x_, arg["hid"], cell) for x_ in items[k0 + 1:-1]]
+                        items = items[:k0] + new_items
+                        body["stmts"], body["tail"] = items, None
+                if inner_ext is None:
+                    store = {"k": "assign", "l": cell, "r": last["args"][0], "line": last.get("line"), "from_push": True}
+                    items = items[:-1] + [store]
+                    body["stmts"], body["tail"] = items, None
+                allocs[vh] = [end] + (inner_ext or [])
+                done = True
+                n += 1
+                break
+            i += 1
+        return
+
+    def alloc_expr(exts, line):
+        cur = {"k": "lit", "v": "0.0", "line": line}
+        for e in reversed(exts):
+            cur = {"k": "call", "callee": "std::vec::from_elem", "f": {"k": "path", "def": "std::vec::from_elem", "mac": "vec"}, "args": [cur, copy.deepcopy(e)], "mac": "vec", "line": line}
+        return cur
+    blocks = [b for b in _walk(fn.get("body")) if b.get("k") == "block"]
+    # innermost blocks first: deeper blocks appear later in a pre-order walk only roughly; order by nesting depth instead
+    depth = {}
+
+    def mark(x, d):
+        if isinstance(x, dict):
+            if x.get("k") == "block":
+                depth[id(x)] = d
+                d += 1
+            for v in x.values():
+                mark(v, d)
+        elif isinstance(x, list):
+            for v in x:
+                mark(v, d)
+    mark(fn.get("body"), 0)
+    for b in sorted(blocks, key=lambda x: -depth.get(id(x), 0)):
+        do_block(b)
+    # turn the declarations of the converted vectors into allocations of the recorded extents
+    for b in blocks:
+        for s in b["stmts"]:
+            if s.get("k") == "let" and s["pat"].get("k") == "bind" and s["pat"]["hid"] in allocs and is_empty_vec(s.get("init")):
+                s["init"] = alloc_expr(allocs[s["pat"]["hid"]], s.get("line"))
+                s["from_push_nest"] = True
+    return n
+
+
+def mut_ref_aliases(fn):
+    """D17  `let x = &mut PLACE;` with PLACE a side-effect-free place expression whose index variables are not assigned while x is in
+    scope, and x never re-bound: every use of x is a use of PLACE (`x[i]`, `x.m()`, `*x = v`).  Writes through the alias are then seen
+    as writes to the place itself."""
+    n = 0
+    for b in list(_walk(fn.get("body"))):
+        if b.get("k") != "block":
+            continue
+        i = 0
+        while i < len(b["stmts"]):
+            s = b["stmts"][i]
+            init = _unblk(s.get("init")) if s.get("k") == "let" else None
+            if not (s.get("k") == "let" and not s.get("els") and s["pat"].get("k") == "bind" and not s["pat"].get("sub") and init is not None
+                    and init.get("k") == "ref" and init.get("mut") and "Ref" not in str(s["pat"].get("mode"))):
+                i += 1
+                continue
+            place = _unblk(init["x"])
+            if not _pure_place_idx(place) or place.get("k") not in ("index", "field"):
+                i += 1
+                continue
+            xh = s["pat"]["hid"]
+            later = b["stmts"][i + 1:] + ([b["tail"]] if b.get("tail") is not None else [])
+            idx_locals = {y["hid"] for y in _walk(place) if y.get("k") == "local"}
+            root = _root(place)
+            bad = False
+            last_use = max([k_ for k_, x in enumerate(later) if _mentions(x, xh)] or [-1])
+            for k_, x in enumerate(later):
+                for y in _walk(x):
+                    if y.get("k") in ("assign", "assignop"):
+                        l = _unblk(y["l"])
+                        # (an index variable changed after the last use of the alias cannot change what the alias named)
+                        if l is not None and l.get("k") == "local" and (l["hid"] == xh or (l["hid"] in idx_locals and k_ <= last_use)):
+                            bad = True
+                    if y.get("k") == "ref" and _unblk(y["x"]) is not None and _unblk(y["x"]).get("k") == "local" and _unblk(y["x"])["hid"] == xh:
+                        bad = True       # `&mut x` / `&x`: the reference itself is observed
+            if bad:
+                i += 1
+                continue
+
+            def subst(x):
+                if isinstance(x, list):
+                    return [subst(v) for v in x]
+                if not isinstance(x, dict):
+                    return x
+                if x.get("k") == "un" and x.get("op") == "Deref":
+                    inner = _unblk(x["x"])
+                    if inner is not None and inner.get("k") == "local" and inner["hid"] == xh:
+                        r = copy.deepcopy(place)
+                        for key in ("ta",):
+                            if key in x:
+                                r[key] = x[key]
+                        return r
+                if x.get("k") == "local" and x.get("hid") == xh:
+                    r = copy.deepcopy(place)
+                    if "ta" in x:
+                        r["ta"] = x["ta"]
+                    elif "t" in x:
+                        r["ta"] = x["t"]
+                    return r
+                for k_, v in list(x.items()):
+                    if isinstance(v, (dict, list)):
+                        x[k_] = subst(v)
+                return x
+            for j in range(i + 1, len(b["stmts"])):
+                b["stmts"][j] = subst(b["stmts"][j])
+            if b.get("tail") is not None:
+                b["tail"] = subst(b["tail"])
+            del b["stmts"][i]
+            n += 1
+    return n
+
+
 _CTR = [0]
 
 
 def run(facts):
     counts = {"debug_asserts": 0, "let_else": 0, "destructured": 0, "local_closures": 0}
+    counts["consts"] = inline_consts(facts)
     ctr = _CTR
     for fn in facts["fns"].values():
         if fn.get("body") is None:
             continue
         counts["debug_asserts"] += strip_debug_asserts(fn["body"])
+        counts["tail_returns"] = counts.get("tail_returns", 0) + tail_returns(fn)
+        counts["compound_assignments"] = counts.get("compound_assignments", 0) + compound_assignments(fn)
+        counts["mut_ref_aliases"] = counts.get("mut_ref_aliases", 0) + mut_ref_aliases(fn)
         counts["while_loops"] = counts.get("while_loops", 0) + while_to_for(fn, facts["types"])
         counts["option_combinators"] = counts.get("option_combinators", 0) + option_combinators(fn)
         counts["let_else"] += let_else_to_match(fn["body"])
+        counts["lifted_arg_blocks"] = counts.get("lifted_arg_blocks", 0) + lift_arg_blocks(fn, facts["types"])
         counts["flattened_blocks"] = counts.get("flattened_blocks", 0) + flatten_blocks(fn)
         counts["split_tuple_lets"] = counts.get("split_tuple_lets", 0) + split_tuple_lets(fn["body"])
         counts["move_aliases"] = counts.get("move_aliases", 0) + move_aliases(fn)
+        counts["mut_ref_aliases"] = counts.get("mut_ref_aliases", 0) + mut_ref_aliases(fn)
         counts["destructured"] += destructure_subst(fn, facts["types"])
         counts["local_closures"] += inline_local_closures(fn, ctr)
         counts["tuple_values"] = counts.get("tuple_values", 0) + split_tuple_values(fn)
